@@ -1318,7 +1318,7 @@ package bpmn
 //@   requires old(sp.active) == 0 ==> held(mu(sp.complete)) == 0
 //@   ensures [inner-completion-is-watched-where-the-activation-listens] forall p int :: old(evlen) <= p && p < evlen && isCall(ev(p)) &&
 //@             evch(ev(p)) == code("tracing|ITracer.Subscribe") ==> evval(ev(p)) == sp.subTracer
-//@   ensures [each-entry-gets-its-own-inner-completion-monitor] count(Spawn, code("(*subProcess).ceaseFlowMonitor$1")) == old(count(Spawn, code("(*subProcess).ceaseFlowMonitor$1"))) + 1
+//@   ensures [each-entry-gets-its-own-inner-completion-monitor @C12] count(Spawn, code("(*subProcess).ceaseFlowMonitor$1")) == old(count(Spawn, code("(*subProcess).ceaseFlowMonitor$1"))) + 1
 //@   ensures [started-at-most-once] count(Spawn, code("(*subProcess).run")) <= old(count(Spawn, code("(*subProcess).run"))) + 1 &&
 //@             (count(Spawn, code("(*subProcess).run")) == old(count(Spawn, code("(*subProcess).run"))) + 1 ==> old(sp.active) == 0)
 //@   ensures [one-request-queued-last] isSend(ev(evlen - 1)) && evch(ev(evlen - 1)) == sp.mch && is(evval(ev(evlen - 1)), nextActionMessage) &&
